@@ -2463,6 +2463,11 @@ func (self *ArbiterManager) commandHandleAnnouncementCommand(serverProtocol *Bin
 		}
 
 		self.glock.Lock()
+		if self.ownMember == nil {
+			// the member was taken out of the set by a later announcement
+			self.glock.Unlock()
+			return
+		}
 		if self.ownMember.role != ARBITER_ROLE_LEADER {
 			err = self.updateStatus()
 			if err != nil {
